@@ -326,6 +326,7 @@ func newEngine(iomod, mode string, npoller, pool, maxBlocking int, handler http.
 		conf.Addrs = nil
 		conf.IOMod = nbhttp.IOModBlocking
 	}
+	nbio.MaxOpenFiles = kernel.FDLimit // (a package variable: a core run of the same worker process may have lowered it)
 	return nbhttp.NewEngine(conf)
 }
 
